@@ -328,3 +328,28 @@ VARIANTS += [
       "            if response.status == 200:\n                self.verbose = verbose\n                return self.parse_response(response)",
       "            if response.status == 200:\n                self.verbose = verbose\n                parsed = self.parse_response(response)\n                return parsed"),
 ]
+
+
+# ---- formatting-only variants: every module re-emitted by ast.unparse (layout, comments, quotes change; AST identical) ----
+def _roundtrip(tree):
+    return tree
+
+
+ALL_PROPS = ["C%02d" % i for i in range(1, 21)]
+for _m in ("SimpleJSONRPCServer", "jsonrpc", "jsonclass", "threadpool", "config", "utils", "history"):
+    VARIANTS.append(A("S90-reformatted-%s" % _m, "silent", ALL_PROPS, _m, _roundtrip))
+
+
+def _insert_logging(tree):
+    """a debug log line as first statement of every function of the module (after the docstring)"""
+    n = 0
+    for f in ast.walk(tree):
+        if isinstance(f, ast.FunctionDef) and f.name not in ("__init__",):
+            pos = 1 if (f.body and isinstance(f.body[0], ast.Expr) and isinstance(f.body[0].value, ast.Constant)) else 0
+            f.body.insert(pos, ast.parse("logging.getLogger(__name__).debug('enter')").body[0])
+            n += 1
+    return tree if n else None
+
+
+for _m in ("SimpleJSONRPCServer", "jsonrpc", "threadpool"):
+    VARIANTS.append(A("S91-debug-log-at-function-entry-%s" % _m, "silent", ALL_PROPS, _m, _insert_logging))
